@@ -8,7 +8,7 @@ import pandas as pd
 from . import product as P
 from .core import num
 
-LAYOUTS = ["C", "F", "view", "frame", "mixedframe"]
+LAYOUTS = ["C", "F", "view", "frame", "mixedframe", "flat", "list"]
 GARBAGE = 987654.0
 
 
@@ -17,6 +17,17 @@ def build(layout, rows):
     a = np.array(rows, dtype=float)
     if a.ndim == 1:
         a = a.reshape(1, -1)
+    if layout == "flat":     # a 1-D array: one observation (stream) or one column (batch); the caller overwrites that very buffer
+        obj = np.ascontiguousarray(a).ravel().copy()
+        return obj, lambda: obj.__setitem__(Ellipsis, GARBAGE)
+    if layout == "list":     # nested lists, emptied / overwritten in place by the caller afterwards
+        obj = a.tolist()
+
+        def overl():
+            for r in obj:
+                for j in range(len(r)):
+                    r[j] = GARBAGE
+        return obj, overl
     if layout == "C":
         obj = np.ascontiguousarray(a)
         return obj, lambda: obj.__setitem__(Ellipsis, GARBAGE)
@@ -46,7 +57,7 @@ def build(layout, rows):
 
 
 def digest(obj):
-    a = obj.to_numpy() if isinstance(obj, pd.DataFrame) else np.asarray(obj)
+    a = obj.to_numpy() if isinstance(obj, pd.DataFrame) else np.asarray(obj, dtype=float)
     return hashlib.md5(np.ascontiguousarray(a).tobytes()).hexdigest()
 
 
@@ -69,6 +80,8 @@ def detector_pair(fam, p, items, layout, s):
                 yp[...] = 5
             return
         rows = x if kind == "batch" else [x] if kind == "row" else [[x]]
+        if layout == "flat" and kind == "batch":
+            rows = [[r[0]] for r in rows]          # one column, handed over as a 1-D array
         obj, over = build(layout, rows)
         d0 = digest(obj)
         getattr(det, method)(obj if alias else copy.deepcopy(obj))
@@ -108,6 +121,7 @@ def injector_pair(kind, frame, rng_seed):
     rng = random.Random(rng_seed)
     n, nc = rng.randint(6, 20), 3
     a = np.array([[float(rng.randint(-5, 9)) for _ in range(nc - 1)] + [float(rng.choice([0, 1, 2]))] for _ in range(n)])
+    a[0, 2], a[1, 2], a[2, 2] = 0.0, 1.0, 2.0            # every class occurs
     names = ["f0", "f1", "y"]
     f, t = sorted((rng.randint(0, n), rng.randint(0, n)))
     col = lambda pos: names[pos] if frame else pos
